@@ -98,9 +98,11 @@ class ModbusClientProtocol(protocol.Protocol,
 
         :param data: The data returned from the server
         """
-        unit = self.framer.decode_data(data).get("unit", 0)
+        # a stream transport may deliver a reply in pieces, so the unit id
+        # cannot be read off this chunk: unit 0 lets the framer accept the
+        # unit found in the header of the frame it has buffered
         self.framer.processIncomingPacket(data, self._handleResponse,
-                                          unit=unit)
+                                          unit=0)
 
     def execute(self, request):
         """ 
